@@ -162,6 +162,21 @@ func c14RunBehaviour(tr *vlib.Trace, parent *channelz.SubChannel, b *c14Beh, sum
 		}
 	}
 	quiesce()
+	// completion: the server completes every stream that is still open and that it may complete
+	// (id at or below every GOAWAY id it has written): such a stream must end with status OK
+	minGa := c14Big + 1
+	for _, st := range b.Steps {
+		if st.A == "goaway" && st.N < minGa {
+			minGa = st.N
+		}
+	}
+	for _, k := range order {
+		if k.st == 2 && c14Closed(k.s.Done()) == 0 && c14Closed(c.ct.Error()) == 0 && int(k.s.id) <= minGa {
+			c.peer.end(k.s.id, false, c.ct.ctxDone)
+			k.st = 4
+			quiesce()
+		}
+	}
 	c.shutdown(tr)
 	for _, k := range order {
 		k.cancel()
